@@ -25,4 +25,4 @@ Practical notes:
 - No network. Do not install anything. Do not modify tests.
 - Do not commit. Leave your change as an uncommitted modification in {wt}; produce the patch with `cd {wt} && git diff -- pydcop > {wt}/patch_{pid}.diff`.
 
-When done, reply with: (1) the path of the patch file and of the demo, (2) a 3-5 line description of the change and exactly what is needed for it to manifest, (3) the commands you ran and their outcome (demo fails with change / passes without - verify the latter with `git stash` then `git stash pop`; test-suite pass set unchanged). If you cannot find a change meeting all the conditions, say so plainly rather than handing in something that violates them.""")
+When done, reply with: (1) the path of the patch file and of the demo, (2) a 3-5 line description of the change and exactly what is needed for it to manifest, (3) the commands you ran and their outcome (demo fails with change / passes without - verify the latter with `git diff -- pydcop > p.diff; git apply -R p.diff; <run demo>; git apply p.diff` - do NOT use `git stash`: the stash is shared with other people's worktrees of the same repository; test-suite pass set unchanged). If you cannot find a change meeting all the conditions, say so plainly rather than handing in something that violates them.""")
